@@ -18,7 +18,41 @@ def realtime(ctx, run):
     return res
 
 
+def long_table_holes(rng, cid0):
+    """several holds filed in ONE bucket of the long expiry table (same deadline second; long table reached at once with
+    the persist-immediately flag and E > 5, or after eight re-checks with E around 40..60), some of them leaving early
+    (unlock, update to another deadline) so that the bucket has holes when the sweeper drains it: every remaining hold
+    must still be ended at its deadline"""
+    cases = []
+    for j in range(4):
+        key = 61 + j
+        n = rng.choice([3, 5, 9])
+        E = rng.choice([8, 12, 45, 60])
+        eflag = 0x100 if E < 40 or rng.random() < 0.5 else 0
+        lines = ["case %d 1000000 %d %d" % (cid0 + j, rng.choice([0, 1]), rng.choice([0, 1]))]
+        rid = 790000 + 1000 * j
+        for i in range(n):
+            lines.append("req %d L %d 0 %d %d 0 0 %d %d 65535 0 -" % (1 + i % 3, rid, 9700 + i, key, eflag, E)); rid += 1
+        lines += ["adv 1", "sweept", "sweepe"]
+        leave = rng.sample(range(n - 1), rng.randrange(1, n - 1)) if n > 2 else [0]
+        for i in sorted(leave):
+            if rng.random() < 0.7:
+                lines.append("req 1 U %d 0 %d %d 0 0 0 0 0 0 -" % (rid, 9700 + i, key)); rid += 1
+            else:
+                lines.append("req 1 L %d 2 %d %d 0 0 %d %d 65535 0 -" % (rid, 9700 + i, key, eflag, E + 7)); rid += 1
+        for _ in range(E + 20):
+            lines += ["adv 1", "sweept", "sweepe"]
+        lines += ["adv 0", "role 1"]
+        for _ in range(3):
+            lines.append("req 1 U %d 1 0 %d 0 0 0 0 0 0 -" % (rid, key)); rid += 1
+        lines += ["adv 1", "sweept", "sweepe"] * 10 + ["adv 100", "sweept", "sweepe"] + ["adv 1", "sweept", "sweepe"] * 10
+        lines.append("end")
+        cases.append(lines)
+    return cases
+
+
 def run(ctx):
     if getattr(ctx, "replay", None):
         return _engine.replay(ctx, 'C06', MONITORS)
-    return _engine.run_engine_check(ctx, 'C06', PROFILES, MONITORS, n_quick=450, n_thorough=18000, impl_only=realtime)
+    return _engine.run_engine_check(ctx, 'C06', PROFILES, MONITORS, n_quick=450, n_thorough=18000, impl_only=realtime,
+                                    extra_cases=long_table_holes)
